@@ -11,6 +11,23 @@ BASELINE = ("cd /repo && /venv/bin/python -m pytest -ra -q -p no:cacheprovider -
 
 # pid -> (category, text, design_ref, level_note, technique)
 CLAIMED = {
+ "C12": ("model_checking",
+         "spec/Client.tla: the application-level contract (one result per operation, in order, equal to issuing the operations one "
+         "after the other on the tag model, plain and fragment mode) and the text of an operation (OpText); TLC emits every "
+         "operation list of <= 2 (3) operations over a 15-operation basis with texts; the real connector runs each list against a "
+         "live simulator thread under depth {0,1,2,5} x multiple {0,100,4000} x fragment x route patterns; TLC (ClientTrace) "
+         "accepts a run iff results are one per operation and explained by the tag model and no bundle mixed route paths; "
+         "parse_operations / format_path are checked against OpText.",
+         "5/C12", "operations refused with a CIP status = range / type errors on existing tags; string writes not in fragment mode",
+         "TLA+ client contract + TLC-emitted operation lists; real connector vs live simulator over the settings matrix, validated by TLC trace spec"),
+ "C13": ("fault_enumeration",
+         "Client!UnderFault: results are a correct prefix, never beyond the completely delivered replies, a shortfall is an error; the real "
+         "connector runs through a relay that cuts the server-to-client stream after k octets (all / boundary + header + every 3rd), "
+         "cuts the client-to-server stream, drops one whole reply frame, or swallows all replies, in synchronous, pipelined, "
+         "fragmented and bundled modes; TLC (ClientTrace) judges every run; poll.loop through get_attribute.proxy under cuts and "
+         "stalled-then-late replies must fail, discard the connection, reconnect and return the values of its own requests.",
+         "5/C13", "a result counts as completely received when its reply frame was delivered in full; 0.6 s timeouts; relay closes both directions at a cut",
+         "TLA+ fault contract; fault-injecting relay enumerating cut offsets / lost frames / stalls on the real client; runs validated by TLC trace spec"),
  "C09": ("model_checking",
          "spec/Concurrency.tla: sessions whose (member) requests each take effect in one atomic step on the shared tag model; TLC explores "
          "every interleaving of five scenarios (TagsWellFormed, PrivateKept, NoTornRead, termination); on the real code one thread per "
